@@ -65,6 +65,10 @@ func NewListNode(values ...interface{}) ItemNode {
 
 	for i, value := range values {
 		if v, ok := value.(ItemNode); ok {
+			if _, ok := v.(emptyItemNode); ok {
+				// the empty item node marks variable positions; it is not a list element
+				panic("empty item node cannot be an element of ListNode")
+			}
 			nodeValues = append(nodeValues, v)
 		} else if v, ok := value.(string); ok {
 			nodeValues = append(nodeValues, emptyNode)
